@@ -345,7 +345,11 @@ static void check_fir(Ctx& ctx, bool T) {
             // ---- custom window of the wrong length is rejected, of the right length accepted
             {
                 const Cut c0 = type < 2 ? Cut{0.3, 0} : Cut{0.3, 0.6};
-                for (int wlen = n; wlen <= n + 3; ++wlen) {
+                // candidate lengths: the empty window (passed explicitly), 1, 2, half, n..n+3 and twice the right length
+                std::vector<int> wlens;
+                for (int wlen : {0, 1, 2, L / 2, n, n + 1, n + 2, n + 3, 2 * L})
+                    if (std::find(wlens.begin(), wlens.end(), wlen) == wlens.end()) wlens.push_back(wlen);
+                for (int wlen : wlens) {
                     P q;
                     q.kv("n", n).kv("type", TNAME[type]).kv("wlen", wlen);
                     if (!ctx.take(c_winlen.c_str(), q)) continue;
@@ -357,7 +361,7 @@ static void check_fir(Ctx& ctx, bool T) {
                     } catch (const std::exception&) {
                         threw = true;
                     }
-                    ctx.note(std::string("winlen ") + (wlen == L ? "right" : "wrong") + (threw ? " threw" : " returned"));
+                    ctx.note(std::string("winlen ") + (wlen == L ? "right" : (wlen == 0 ? "empty" : "wrong")) + (threw ? " threw" : " returned"));
                     if (wlen == L) {
                         if (threw || got != L)
                             ctx.fail("fir1", threw ? "threw" : fmt("returned %d taps", got),
